@@ -81,10 +81,14 @@ def build(cg, cd, via="graph"):
         if key not in bbtypes:
             bbtypes[key] = cg.BlackBox(b["name"], list(b["inputs"]), list(b["outputs"]))
         bbs[inst] = bbtypes[key]
-    if via == "graph":
+    if via in ("graph", "sparse"):
         g = nx.DiGraph()
         for n, t, o in cd["nodes"]:
-            g.add_node(n, type=t, output=bool(o))
+            if via == "sparse" and not o and (t == "input" or len(n) % 2 == 0):
+                # like the fast parser: nodes that are not outputs may lack the `output` attribute
+                g.add_node(n, type=t)
+            else:
+                g.add_node(n, type=t, output=bool(o))
         for u, v in cd["edges"]:
             g.add_edge(u, v)
         c = cg.Circuit(name=cd["name"], graph=g if len(g) else None, blackboxes=bbs or None)
